@@ -10,14 +10,17 @@ Open Scope N_scope.
 Inductive answer := AConnect (data : pv) | AConnectError (data : pv) | ADisconnect (data : pv).
 
 Inductive c18case :=
-(* admin_connect called directly: class, configuration, payload, what the predicate does, result *)
-| TV (is_async : bool) (cfg : acfg) (a : pv) (call : Res pv) (iscoro : bool) (observed : Res pv)
+(* admin_connect called directly: class, configuration, payload, what CALLING the predicate gives, whether
+   it is a coroutine function, [Some r] when the call's value is a coroutine object whose awaited result
+   is r (the value is then [coroutine_object]), and the observed result *)
+| TV (is_async : bool) (cfg : acfg) (a : pv) (call : Res pv) (iscoro : bool) (awaited : option (Res pv))
+     (observed : Res pv)
 (* instrument(): events registered on the admin namespace (in order), are the four application-path
    wrappers installed *)
 | IV (is_async : bool) (cfg : acfg) (events : list str) (patched : bool)
 (* a CONNECT packet on the admin namespace through the real connect path *)
 | CN (is_async always : bool) (cfg : acfg) (data : pv) (call : Res pv) (iscoro : bool)
-     (answers : list answer) (member : bool)
+     (awaited : option (Res pv)) (answers : list answer) (member : bool)
 (* an admin client sends a modifying request; did anything happen to application clients / state *)
 | RO (cfg : acfg) (ev : str) (happened : bool)
 (* side by side: admin transports, admin namespace, per-operation effects of the plain run, of the
@@ -26,16 +29,20 @@ Inductive c18case :=
 (* packets delivered on the admin namespace to a transport whose authentication is still pending *)
 | LK (n : nat).
 
-Definition case_oracle (call : Res pv) (iscoro : bool) : oracle :=
-  mkOracle (fun _ _ => call) (fun _ => iscoro) (fun _ _ => Ok PNone).
+Definition case_oracle (call : Res pv) (iscoro : bool) (awaited : option (Res pv)) : oracle :=
+  mkOracle (fun _ _ => call) (fun _ => iscoro)
+           (fun v => match awaited with Some _ => pv_eqb v coroutine_object | None => false end)
+           (fun _ => match awaited with Some r => r | None => Err TypeError end)
+           (fun _ _ => Ok PNone).
 Definition class_pred (is_async : bool) (o : oracle) : pv -> pv -> Res pv :=
   if is_async then pred_async o else pred_sync o.
 
 (* ---- TV ---- *)
-Definition tv_spec (is_async : bool) (cfg : acfg) (a : pv) (call : Res pv) (iscoro : bool) : Res pv :=
-  auth_outcome (class_pred is_async (case_oracle call iscoro)) (a_auth cfg) a.
-Definition tv_spec_ok is_async cfg a call iscoro (observed : Res pv) : bool :=
-  res_eqb pv_eqb (tv_spec is_async cfg a call iscoro) observed.
+Definition tv_spec (is_async : bool) (cfg : acfg) (a : pv) (call : Res pv) (iscoro : bool)
+           (awaited : option (Res pv)) : Res pv :=
+  auth_outcome (class_pred is_async (case_oracle call iscoro awaited)) (a_auth cfg) a.
+Definition tv_spec_ok is_async cfg a call iscoro awaited (observed : Res pv) : bool :=
+  res_eqb pv_eqb (tv_spec is_async cfg a call iscoro awaited) observed.
 
 (* ---- IV ---- *)
 Definition iv_spec_events (cfg : acfg) : list (option str) := map on_event (spec_registrations cfg).
@@ -70,8 +77,8 @@ Definition cn_model_ok (payload : pv) (always : bool) (decision : Res pv) (answe
   | Err _ => (if always then match answers with [AConnect d] => is_sid_dict d | _ => false end
               else match answers with [] => true | _ => false end) && member
   end.
-Definition cn_decision is_async cfg data call iscoro : Res pv :=
-  tv_spec is_async cfg (effective_auth data) call iscoro.
+Definition cn_decision is_async cfg data call iscoro awaited : Res pv :=
+  tv_spec is_async cfg (effective_auth data) call iscoro awaited.
 
 (* ---- RO ---- *)
 Definition ro_prop_ok (cfg : acfg) (happened : bool) : bool := writable cfg || negb happened.
@@ -103,10 +110,11 @@ Fixpoint tr_first_diff (A : list str) (plain instr : list (list eff)) (i : nat) 
         bit 1 here only for observations that contradict the hand-written server-side model ---- *)
 Definition c18_eval_spec (k : c18case) : nat :=
   match k with
-  | TV is_async cfg a call iscoro observed => bits true (tv_spec_ok is_async cfg a call iscoro observed)
+  | TV is_async cfg a call iscoro awaited observed =>
+      bits true (tv_spec_ok is_async cfg a call iscoro awaited observed)
   | IV is_async cfg events patched => bits true (iv_spec_ok cfg events patched)
-  | CN is_async always cfg data call iscoro answers member =>
-      let d := cn_decision is_async cfg data call iscoro in
+  | CN is_async always cfg data call iscoro awaited answers member =>
+      let d := cn_decision is_async cfg data call iscoro awaited in
       bits (cn_model_ok refusal_payload always d answers member) (cn_prop_ok always d answers member)
   | RO cfg ev happened => bits (ro_model_ok cfg happened) (ro_prop_ok cfg happened)
   | TR A adm plain instr admin_ops dplain dinstr => bits true (tr_ok A adm plain instr admin_ops dplain dinstr)
@@ -121,9 +129,9 @@ Proof.
   - apply exn_eqb_eq in H. congruence.
 Qed.
 
-Lemma tv_spec_ok_sound is_async cfg a call iscoro observed :
-  tv_spec_ok is_async cfg a call iscoro observed = true ->
-  observed = auth_outcome (class_pred is_async (case_oracle call iscoro)) (a_auth cfg) a.
+Lemma tv_spec_ok_sound is_async cfg a call iscoro awaited observed :
+  tv_spec_ok is_async cfg a call iscoro awaited observed = true ->
+  observed = auth_outcome (class_pred is_async (case_oracle call iscoro awaited)) (a_auth cfg) a.
 Proof. intro H. symmetry. apply res_pv_eqb_eq. exact H. Qed.
 
 Lemma cn_prop_ok_sound always d answers member :
